@@ -22,6 +22,10 @@ def run(ctx):
         N = rng.choice([1, 2, 3, 3, 4, 5, 6])
         length = rng.choice([1, 1, 2, 3, 5, 8, 12, 20, 30])
         prog = CU.rand_program(rng, N, length)
+        if rng.random() < 0.05:       # a wide register: qubit indices beyond 63, gates on the top qubits
+            N = rng.choice([65, 66, 72])
+            prog = CU.wide_program(rng, N, min(length, 8))
+            ctx.count('wide-register')
         klass = rng.choice(['CliffordCircuit', 'Circuit'])
         conf = rng.choice(['plain', 'plain', 'layers', 'compiled', 'compiled', 'gate', 'layer', 'recompiled'])
         order = rng.choice(['bf', 'fb'])
